@@ -3,8 +3,7 @@
    untouched, for ALL initial heaps and ALL argument tuples (any aliasing between arguments included).
    Round 5 (end of file): the remaining documented in-place parameters, sequences of calls, estimator classes,
    the interruption points used by the correspondence, monotonicity of the static check in the protection, caught
-   exceptions (try / except), and the
-   refuted / partial pair of the known finding cp_normalize_inplace_false. *)
+   exceptions (try / except), and CPTensor.normalize(inplace=False) after fix 9ada0b3 (old rule as a labelled Example). *)
 From Coq Require Import List Arith ZArith Bool.
 From TLV Require Import Model.Effects Proofs.EffectsProofs Proofs.EffectsProofsSk Proofs.EffectsProofsGen Proofs.EffectsProofsPaths Proofs.EffectsProofsReach Proofs.EffectsProofsR5 Proofs.EffectsProofsMono Proofs.EffectsProofsTry Corr.C15.
 Import ListNotations.
@@ -402,6 +401,11 @@ Proof.
 Qed.
 Print Assumptions C15_cp_hals_tucker_class_fit_frame.
 
+Theorem C15_any_estimator_fit_frame : forall nattr (self X : ref) (h0 : heap) (o : nat),
+  o < length h0 -> target self <> Some o ->
+  nth_error (snd (exec (sk_estimator_fit nattr (Alloc 25 1) 25) (env0 [self; X], h0))) o = nth_error h0 o.
+Proof. exact any_estimator_fit_frame. Qed.
+
 Example C15_estimator_fit_nonvacuous :
   footprint (sk_estimator_fit 3 (sk_parafac_gen 3 2 2 (Some 1) [0; 1; 2]) 25) [RObj 9 []; RObj 0 [0; 1; 2; 3]] est_heap = [9].
 Proof. exact estimator_fit_nonvacuous. Qed.
@@ -473,20 +477,75 @@ Example C15_frame_try_demo :
   firstn 1 (snd (fst (run try_handler 1 (fst (run try_body_good 2 (env0 [RObj 0 [0; 1]], [OBuf [5; 7]%Z])))))) = [OBuf [5; 7]%Z].
 Proof. exact try_demo. Qed.
 
-(* ------------------------------------------------------------------ genuine defect found in round 5 (known finding
-   cp_normalize_inplace_false): CPTensor.normalize(inplace=False) is documented to return a normalised copy; the code ignores
-   the option and assigns self.weights / self.factors.  Refuted for the protected receiver; the restricted statement that
-   does hold (nothing but the receiver object changes); the skeleton of the candidate repair is accepted. *)
-Theorem C15_cp_normalize_inplace_false_refuted :
-  safe 1 sk_cp_normalize_method = false /\
-  exists (self : ref) (h0 : heap) (o : nat), o < length h0 /\
-    nth_error (snd (exec sk_cp_normalize_method (env0 [self], h0))) o <> nth_error h0 o.
-Proof. exact cp_normalize_inplace_false_refuted. Qed.
-Print Assumptions C15_cp_normalize_inplace_false_refuted.
+(* ------------------------------------------------------------------ round 6: a whole program with one try statement,
+   pre; try: c except: hd; rest - the protected statements raise after n primitive effects, for EVERY n (n >= size c: no
+   exception); `safe_tryprog` = pre accepted, body accepted, handler accepted from every interruption point of the body, rest
+   accepted after the body and after the handler.  Instances: the entry points of the anchored packages whose handler goes
+   on (active_set_nnls, vonneumann_entropy, the mode normalisation of matricize / tensordot) or re-raises after writes
+   (tensor_train_cross); the correspondence evaluates the same check on every call of these entry points.  Sensitivity: a
+   handler that resets the warm start of active_set_nnls in place is rejected and writes into the caller's x. *)
+Theorem C15_frame_tryprog : forall (pre c hd rest : cmd) (args : list ref) (h0 : heap),
+  safe_tryprog (length args) pre c hd rest = true ->
+  forall n o, o < length h0 -> nth_error (snd (exec_try pre c hd rest n (env0 args, h0))) o = nth_error h0 o.
+Proof. exact frame_tryprog. Qed.
+Print Assumptions C15_frame_tryprog.
 
-Theorem C15_cp_normalize_inplace_false_partial :
-  (forall (self : ref) (h0 : heap) (o : nat), o < length h0 -> target self <> Some o ->
-     nth_error (snd (exec sk_cp_normalize_method (env0 [self], h0))) o = nth_error h0 o) /\
-  safe 1 sk_cp_normalize = true.
-Proof. exact (conj cp_normalize_method_frame cp_normalize_repaired_safe). Qed.
-Print Assumptions C15_cp_normalize_inplace_false_partial.
+Theorem C15_wrapper_ctor_safe : safe 1 sk_wrapper_ctor = true.
+Proof. exact wrapper_ctor_safe. Qed.
+
+Theorem C15_try_entry_points_frame :
+  forallb (fun p => let '(n, (pre, c, hd, rest)) := p in safe_tryprog n pre c hd rest) try_skeletons = true /\
+  Forall (fun p => let '(k, (pre, c, hd, rest)) := p in
+    forall (args : list ref) (h0 : heap) (n o : nat), length args = k -> o < length h0 ->
+      nth_error (snd (exec_try pre c hd rest n (env0 args, h0))) o = nth_error h0 o) try_skeletons.
+Proof. exact (conj try_skeletons_safe try_skeletons_frame). Qed.
+Print Assumptions C15_try_entry_points_frame.
+
+Example C15_active_set_try_mutant :
+  (let '(pre, c, hd, rest) := tp_active_set_nnls_mut in safe_tryprog 3 pre c hd rest) = false /\
+  (let '(pre, c, hd, rest) := tp_active_set_nnls_mut in
+   footprint_try pre c hd rest 2 [RObj 0 [0; 1]; RObj 1 [0; 1; 2; 3]; RObj 2 [0; 1]] [OBuf [1; 2]%Z; OBuf [1; 0; 0; 1]%Z; OBuf [7; 7]%Z]) = [2] /\
+  (let '(pre, c, hd, rest) := tp_active_set_nnls in
+   footprint_try pre c hd rest 2 [RObj 0 [0; 1]; RObj 1 [0; 1; 2; 3]; RObj 2 [0; 1]] [OBuf [1; 2]%Z; OBuf [1; 0; 0; 1]%Z; OBuf [7; 7]%Z]) = [].
+Proof. exact active_set_try_mutant. Qed.
+
+(* ------------------------------------------------------------------ round 6: SEVERAL try statements (tcmd = plain commands, try / except
+   statements, sequencing; try / except / finally = TSeq (TTry c hd) (TPlain final); a try inside a loop = trepeat).  The oracle ns
+   gives, per executed try statement, the position at which its body raises - ANY oracle.  `tsafe` computes the set of abstract
+   states possible after each statement (normal exit, and the handler run from every interruption point).  Instance used by the
+   correspondence: active_set_nnls with its try statement inside the sweep (two sweeps) and an epilogue; sensitivity: a handler
+   that resets the warm start in place is rejected and, with the oracle [1; 0], zeroes the caller's x.  Not covered: a try
+   statement nested inside another try body or inside a callee. *)
+Theorem C15_frame_tcmd : forall (t : tcmd) (args : list ref) (h0 : heap),
+  tsafe (length args) t = true ->
+  forall ns o, o < length h0 -> nth_error (snd (fst (texec t ns (env0 args, h0)))) o = nth_error h0 o.
+Proof. exact frame_tcmd. Qed.
+Print Assumptions C15_frame_tcmd.
+
+Example C15_frame_tcmd_demo :
+  tsafe 3 tc_active_set_nnls = true /\
+  tsafe 3 (tc_active_set (seq [ WriteInto 10 [0%Z; 0%Z]; Alloc 14 2 ])) = false /\
+  snd (fst (texec (tc_active_set (seq [ WriteInto 10 [0%Z; 0%Z]; Alloc 14 2 ])) [1; 0]
+       (env0 [RObj 0 [0; 1]; RObj 1 [0; 1; 2; 3]; RObj 2 [0; 1]], [OBuf [1; 2]%Z; OBuf [1; 0; 0; 1]%Z; OBuf [7; 7]%Z]))) <>
+    [OBuf [1; 2]%Z; OBuf [1; 0; 0; 1]%Z; OBuf [7; 7]%Z] /\
+  nth_error (snd (fst (texec (tc_active_set (seq [ WriteInto 10 [0%Z; 0%Z]; Alloc 14 2 ])) [1; 0]
+       (env0 [RObj 0 [0; 1]; RObj 1 [0; 1; 2; 3]; RObj 2 [0; 1]], [OBuf [1; 2]%Z; OBuf [1; 0; 0; 1]%Z; OBuf [7; 7]%Z])))) 2 = Some (OBuf [0; 0]%Z).
+Proof. exact tcmd_demo. Qed.
+
+(* ------------------------------------------------------------------ CPTensor.normalize(inplace=...) after fix 9ada0b3 (defect found by
+   this check in round 5: the option was ignored).  inplace=False returns a normalised copy: the receiver is PROTECTED and
+   nothing of the caller's heap changes, also when interrupted.  inplace=True: the receiver is documented as updated
+   (C15_cp_normalize_method_frame: only the receiver object changes).  The old rule is kept as a labelled Example. *)
+Theorem C15_cp_normalize_method_inplace_false_frame :
+  safe 1 sk_cp_normalize_method_copy = true /\
+  forall (self : ref) (h0 : heap) (n o : nat), o < length h0 ->
+    nth_error (snd (fst (run sk_cp_normalize_method_copy n (env0 [self], h0)))) o = nth_error h0 o.
+Proof. exact (conj cp_normalize_method_copy_safe cp_normalize_method_copy_frame). Qed.
+Print Assumptions C15_cp_normalize_method_inplace_false_frame.
+
+Example C15_cp_normalize_inplace_false_before_9ada0b3 :
+  safe 1 sk_cp_normalize_method = false /\
+  (exists (self : ref) (h0 : heap) (o : nat), o < length h0 /\
+    nth_error (snd (exec sk_cp_normalize_method (env0 [self], h0))) o <> nth_error h0 o) /\
+  footprint sk_cp_normalize_method_copy [RObj 0 []] method_heap = [].
+Proof. exact cp_normalize_inplace_false_before_9ada0b3. Qed.
